@@ -15,6 +15,7 @@ import (
 	"strconv"
 	"strings"
 	"time"
+	"verif/harness/sim"
 	"verif/harness/storechk"
 )
 
@@ -55,6 +56,7 @@ type Ctx struct {
 	Of        int
 	OutDir    string // scratch (removed by the supervisor)
 	ReplayDir string
+	Journal   string // per-worker journal of the ABCI requests of the running case, written before each call
 	Res       *WorkerResult
 	seen      map[string]bool
 }
@@ -220,7 +222,7 @@ func workerMain(args []string) {
 	fs.Parse(args)
 	def := registry[*prop]
 	res := &WorkerResult{Prop: *prop, Stats: map[string]int64{}}
-	c := &Ctx{Prop: *prop, Tier: *tier, Seed: *seed, Shard: *shard, Of: *of, OutDir: filepath.Dir(*out), ReplayDir: *rdir, Res: res}
+	c := &Ctx{Prop: *prop, Tier: *tier, Seed: *seed, Shard: *shard, Of: *of, OutDir: filepath.Dir(*out), ReplayDir: *rdir, Journal: *out + ".journal", Res: res}
 	def.Run(c)
 	res.Done = true
 	bz, _ := json.Marshal(res)
@@ -315,6 +317,23 @@ func supervise(def *PropDef, tier string, seed uint64) int {
 		var r WorkerResult
 		if rerr != nil || json.Unmarshal(bz, &r) != nil || !r.Done {
 			tail := tailOf(w.logf, 30)
+			// did the application kill the process inside an ABCI call? (the journal holds every request of the
+			// running history, each written before it was issued)
+			if caseID, prof, log := readJournal(w.out + ".journal"); len(log) > 0 {
+				last := log[len(log)-1]
+				msg := fmt.Sprintf("the process ended (exit status: %v) inside %s call #%d (%s) of history %s; last output: %s", werr, last.Kind, last.Seq, last.Label, caseID, oneLine(tailOf(w.logf, 3)))
+				if def.ID == "C11" {
+					rdir := filepath.Join(vd, "evidence", "replay")
+					os.MkdirAll(rdir, 0755)
+					sig := "process-exit/" + last.Kind
+					path := filepath.Join(rdir, fmt.Sprintf("%s-%d-%s-%s.json", def.ID, seed, caseID, sanitize(sig)))
+					bz, _ := json.Marshal(map[string]interface{}{"property": def.ID, "signature": sig, "message": msg, "seed": seed, "case": caseID, "tier": tier, "replay": histReplay{Profile: prof, Log: log}})
+					ioutil.WriteFile(path, bz, 0644)
+					total.Violations = append(total.Violations, ViolationRec{Prop: def.ID, Sig: sig, Msg: msg, Case: caseID, Replay: path})
+				}
+				inconcl = append(inconcl, "worker lost: "+msg)
+				continue
+			}
 			inconcl = append(inconcl, fmt.Sprintf("worker died (%v): %s", werr, oneLine(tail)))
 			keep := filepath.Join(vd, "evidence", fmt.Sprintf("%s-worker-death.log", def.ID))
 			os.MkdirAll(filepath.Dir(keep), 0755)
@@ -460,4 +479,35 @@ func oneLine(s string) string {
 		s = s[len(s)-400:]
 	}
 	return s
+}
+
+// readJournal parses a worker's journal: a header line, then one request per line; a trailing case_end line means the
+// history had finished (nothing to attribute).
+func readJournal(path string) (caseID, profile string, log []sim.LogEntry) {
+	bz, err := ioutil.ReadFile(path)
+	if err != nil {
+		return "", "", nil
+	}
+	lines := strings.Split(strings.TrimSpace(string(bz)), "\n")
+	if len(lines) < 2 {
+		return "", "", nil
+	}
+	var hdr struct {
+		Case    string `json:"case"`
+		Profile string `json:"profile"`
+	}
+	if json.Unmarshal([]byte(lines[0]), &hdr) != nil || hdr.Case == "" {
+		return "", "", nil
+	}
+	for _, l := range lines[1:] {
+		if strings.HasPrefix(l, `{"case_end"`) {
+			return "", "", nil
+		}
+		var le sim.LogEntry
+		if json.Unmarshal([]byte(l), &le) != nil || le.Kind == "" {
+			break // a torn last line
+		}
+		log = append(log, le)
+	}
+	return hdr.Case, hdr.Profile, log
 }
